@@ -106,6 +106,7 @@ fn main() {
                 out::line(&format!("MACHINERY-ERROR: {}", e));
                 std::process::exit(2)
             });
+            std::env::set_var("VERIF_FINDINGS", &findings_path);
             let ctx = Ctx::new(tier, seed);
             let report = (p.run)(&ctx);
             let code = finish(&id, &ctx, report, &known, &evidence, &replays, p.level_note);
